@@ -311,7 +311,16 @@ func c19BehaviourPart(t *testing.T) map[string]any {
 		pending[i] = i
 	}
 	unstable := false
+	// the slow cases share a wave (a wave lasts as long as its slowest request)
+	lasts := func(c c19Beh) int {
+		d := c.Delay
+		if c.C.Rht > 0 && d > c.C.Rht {
+			d = c.C.Rht
+		}
+		return d + c.Body
+	}
 	for pass := 0; pass < 6 && len(pending) > 0; pass++ {
+		sort.SliceStable(pending, func(a, b int) bool { return lasts(bs[pending[a]].c) > lasts(bs[pending[b]].c) })
 		var again []int
 		for len(pending) > 0 {
 			n := 64
